@@ -8,7 +8,9 @@ P=/verif/seeded/$NAME/patch.diff
 cd /repo || exit 2
 [ -z "$(git status --porcelain)" ] || { echo "/repo not clean"; exit 2; }
 git apply "$P" || exit 2
-trap 'git -C /repo checkout -- . ' EXIT
+# evidence files must describe runs on the unchanged tree: keep them out of harm's way
+rm -rf /tmp/evidence.keep; cp -r /verif/evidence /tmp/evidence.keep
+trap 'git -C /repo checkout -- . ; rm -rf /verif/evidence; mv /tmp/evidence.keep /verif/evidence' EXIT
 for C in "$@"; do
   OUT=$(cd /verif && ./check $C ${TIER:-quick} 2>&1); rc=$?
   if [ $rc -eq 1 ] && echo "$OUT" | grep -q "^VIOLATION property=$C"; then
